@@ -60,7 +60,9 @@ function jobs (spec, ctx) {
       prog.meta.sigBase = `catalog:${it.p}:${it.f}`
       out.push({ code: prog.code, file: FILES[out.length % FILES.length], meta: prog.meta, config: SETS[it.cfg], cfgKey: it.cfg, cfgName: it.cfg })
       // every seventh program also runs with further operations spliced onto random sub-expressions (cross combinations)
-      if (!it.known && !pl.kfShape && !pl.asyncMain && !fm.kf && out.length % 7 === 0 && !/\basync\b|\bawait\b|\bPromise\b/.test(prog.code)) {
+      // (not for world-observable `w.X.prototype.m` paths: the statement exempts the order of reading such a path versus the
+      // this-argument, and a splice would make the this-argument effectful)
+      if (!it.known && !pl.kfShape && !pl.asyncMain && !fm.kf && out.length % 7 === 0 && !/\basync\b|\bawait\b|\bPromise\b|w\.X\d+\??\.prototype/.test(prog.code)) {
         const sp = require('./gen_splice').spliceRunnable(new Rng(ctx.seed, 'catsplice', it.p, it.f), prog.code, !!prog.meta.module, 2)
         if (sp) out.push({ code: sp.code, file: FILES[out.length % FILES.length], meta: Object.assign({}, prog.meta, { sigBase: `catalog-splice:${it.p}:${it.f}`, splices: sp.splices, spliced: true }), config: SETS[it.cfg], cfgKey: it.cfg, cfgName: it.cfg })
       }
